@@ -15,4 +15,24 @@ out = ["# Seeded changes and detection by the quick checks", "",
        "| label | property | detected | VIOLATION lines | demo exit clean/seeded | pinned tests with patch | what it needs to manifest |",
        "|---|---|---|---|---|---|---|"] + rows
 (HERE / "seeded" / "SUMMARY.md").write_text("\n".join(out) + "\n")
-print("\n".join(out))
+
+# the table of DESIGN.md section 11 (between the SEEDTABLE markers)
+DEFAULT = "detected by the quick check as it stood when the seed was evaluated"
+trows, n, late = [], 0, 0
+for d in sorted((HERE / "seeded").iterdir()):
+    m = d / "meta.json"
+    if m.exists():
+        x = json.loads(m.read_text())
+        n += 1
+        h = x.get("history", DEFAULT)
+        late += h != DEFAULT
+        need = " ".join(x.get("needs", "").split())[:230].replace("|", "\\|")
+        trows.append(f"| {x['label']} | `./check {x['property']}` | {need} | {h if x.get('detected') else 'NOT DETECTED: ' + h} |")
+table = ["| seed | caught by | change / what it needs | history |", "|---|---|---|---|"] + trows
+dp = HERE / "DESIGN.md"
+ds = dp.read_text()
+B, E = "<!-- SEEDTABLE-BEGIN -->", "<!-- SEEDTABLE-END -->"
+if B in ds and E in ds:
+    ds = ds[:ds.index(B) + len(B)] + "\n" + "\n".join(table) + "\n" + ds[ds.index(E):]
+    dp.write_text(ds)
+print(f"{n} seeds, {sum(1 for r in rows if '| yes |' in r)} detected, {late} only after strengthening")
